@@ -513,6 +513,12 @@ def rule_conv(ctx):
     else:
         single = wpath.after_binding()
     handles_list = any(_itemwise(st, lambda nm: "inv_dtype_lookup" in nm.lower()) for st in single) or not single
+    uses_inv = any(isinstance(n, ast.Subscript) and isinstance(n.value, ast.Name) and "inv_dtype_lookup" in n.value.id.lower() for st in single for n in ast.walk(st))
+    if single and not uses_inv:
+        # the conversion is done by other means than the inverse table: not judged here
+        r.instances.append({"conversion": "type name <-> type for a list argument", "verdict": "undecided (writer does not use the inverse type table on this path)"})
+        r.undecided.append({"what": "writer list conversion by other means than the inverse table"})
+        handles_list = True
     inst = {"conversion": "type name <-> type for a list argument of a single-parameter callable", "reader_item_wise": reader_list, "writer_item_wise": handles_list}
     r.instances.append(inst)
     if reader_list and not handles_list:
@@ -543,7 +549,11 @@ def rule_conv(ctx):
             cast_assign = asg[0].value
             break
     if cast_assign is None:
-        raise AnalysisError("writer: the predicate guarding the type-name conversion (INV_DTYPE_LOOKUP) not found")
+        # the writer converts types some other way (a helper function, an unguarded table use): the
+        # evaluation of the predicate per constructor cannot be carried out
+        r.instances.append({"conversion": "writer's type-conversion predicate", "verdict": "undecided (no local guarding every use of the inverse type table)"})
+        r.undecided.append({"what": "writer type-conversion predicate not recognised"})
+        cast_assign = ast.Constant(value=True)
     from ..hints import dsl_bindings as _b
     labels = {}
     for cq, c in prog.classes.items():
